@@ -838,3 +838,64 @@ func ruleCreateOnMiss(c *Ctx, r *Report) {
 		}
 	}
 }
+
+// ---- R-UNION-COPY (C04, C05) -------------------------------------------------------------------
+
+// ruleUnionCopy: union values live in interface fields; their copies must be as deep as those of
+// other leaves. Two structural conditions on ygot's copy family: (1) in copySliceField, an element
+// of interface kind is handed to copyInterfaceField before it is appended to the destination (a
+// wrapper union is a pointer, a simplified binary member a byte slice: appending the element
+// shares it); (2) the binary arm of copyInterfaceField builds its result with reflect.MakeSlice,
+// not by appending onto reflect.Zero (which is nil for a zero-length value, i.e. "unset").
+func ruleUnionCopy(c *Ctx, r *Report) {
+	r.Rule("R-UNION-COPY", "ygot's copy of union values is deep and preserves zero-length binaries: copySliceField passes interface-kinded elements through copyInterfaceField before appending them, and copyInterfaceField's binary arm allocates its copy with reflect.MakeSlice", 2)
+	if f := c.MustFunc(r, "ygot", "copySliceField"); f != nil {
+		info := f.Info()
+		ok := false
+		for _, call := range CallsIn(info, f.Decl.Body, P("ygot")+".copyInterfaceField") {
+			for _, ft := range c.FactsAt(f, call, false) {
+				if ft.Kind == "cond" && ft.Pos && strings.Contains(types.ExprString(ft.Cond), "reflect.Interface") {
+					ok = true
+				}
+			}
+		}
+		r.Check(ok, "ygot.copySliceField:interface-elements-copied", c.Pos(f.Decl.Pos()), "interface-kinded elements go through copyInterfaceField",
+			"copySliceField appends the members of a leaf-list of unions as they are: the copy shares the wrapper structs (or the bytes of binary members) with the source, so changing the result of DeepCopy/MergeStructs changes the input")
+	}
+	if f := c.MustFunc(r, "ygot", "copyInterfaceField"); f != nil {
+		info := f.Info()
+		// the arm guarded by the Binary type name.
+		good, found := false, false
+		ast.Inspect(f.Decl.Body, func(x ast.Node) bool {
+			cc, ok := x.(*ast.CaseClause)
+			if !ok {
+				return true
+			}
+			isBin := false
+			for _, e := range cc.List {
+				if strings.Contains(types.ExprString(e), "BinaryTypeName") {
+					isBin = true
+				}
+			}
+			if !isBin {
+				return true
+			}
+			found = true
+			mk := len(CallsIn(info, cc, "reflect.MakeSlice")) > 0
+			zero := false
+			for _, z := range CallsIn(info, cc, "reflect.Zero") {
+				_ = z
+				zero = true
+			}
+			good = mk && !zero
+			return false
+		})
+		switch {
+		case !found:
+			r.Und("ygot.copyInterfaceField:binary-arm", c.Pos(f.Decl.Pos()), "binary arm not found")
+		default:
+			r.Check(good, "ygot.copyInterfaceField:binary-arm", c.Pos(f.Decl.Pos()), "copy allocated with reflect.MakeSlice",
+				"copyInterfaceField builds the copy of a binary union member by appending onto reflect.Zero: for a zero-length value the result is nil, which the merge reads as an unset field (DeepCopy is not equal to its input; a conflict with the other struct's value goes unnoticed)")
+		}
+	}
+}
